@@ -4,5 +4,6 @@ From DivanV Require Import Base.Res Base.ExtractPrelude Generated.Consts Model.P
 Extraction Language OCaml.
 Set Extraction KeepSingleton.
 Extraction "model.ml" extraction_prelude
-  PoolM.init PoolM.step PoolM.run PoolM.final PoolM.candidate_labels PoolM.enabled_labels PoolM.inv_all
-  PoolM.once_per_index PoolM.published PoolM.inner_measure PoolM.outer_measure.
+  PoolM.code_cfg PoolM.init PoolM.step PoolM.run PoolM.final PoolM.candidate_labels PoolM.enabled_labels
+  PoolM.inv_all PoolM.inv_failures
+  PoolM.once_per_index PoolM.published PoolM.results_indexed PoolM.inner_measure PoolM.outer_measure.
